@@ -288,3 +288,53 @@ func VerifC08_InvalidPattern() {
 		"KF-C08-invalid-pattern-ignored-on-empty-dir", op >= 5 && len(nodes) == 0)
 	verif.Assert("nothing_touched", len(rec.mutations()) == 0 && vSameTree(before, vSnapshot(rec.inner, "/")))
 }
+
+// VerifC08_PatternIsolation: each pattern of a set means what it means alone --
+// flags, groups or alternations of one pattern must not leak into another, and
+// a set containing an invalid pattern is invalid whatever its neighbours are.
+func VerifC08_PatternIsolation() {
+	rec, fs := vNewFs()
+	const root = "/r"
+	_ = fs.MkDir(root)
+	var nodes []vTreeNode
+	for _, n := range []string{"a", "b", "B", "ab"} {
+		if verif.Bool("present") {
+			_ = fs.WriteFile(root+"/"+n, []byte("1"), 0o644)
+			nodes = append(nodes, vTreeNode{rel: []string{n}, depth: 1})
+		}
+	}
+	sets := [][]string{{"(?i)a", "b"}, {"b", "(?i)a"}, {"a|", "b"}, {"(?s)a", "B"}, {"a$", "^b"}}
+	invalid := [][]string{{"(a", "b)"}, {"(", ")"}, {"a", "b)"}, {"[a", "b]"}}
+	ctx := context.Background()
+	if verif.Bool("invalidSet") {
+		pats := invalid[verif.Choice("set", len(invalid))]
+		before := vSnapshot(rec.inner, "/")
+		rec.reset()
+		var err error
+		switch verif.Choice("op", 4) {
+		case 0:
+			_, err = fs.LsWithExclusionPatterns(root, pats...)
+		case 1:
+			err = fs.CopyWithContextAndExclusionPatterns(ctx, root, "/dst", pats...)
+		case 2:
+			_, err = fs.LsRecursiveWithExclusionPatterns(ctx, root, true, pats...)
+		case 3:
+			_, err = NewExclusionRegexList('/', pats...)
+		}
+		verif.Assert("invalid_pattern_rejected", err != nil && commonerrors.Any(err, commonerrors.ErrInvalid))
+		verif.Assert("nothing_touched", len(rec.mutations()) == 0 && vSameTree(before, vSnapshot(rec.inner, "/")))
+		return
+	}
+	pats := sets[verif.Choice("set", len(sets))]
+	names, err := fs.LsWithExclusionPatterns(root, pats...)
+	verif.Assert("listing_succeeds", err == nil)
+	for _, n := range nodes {
+		in := vContains(names, n.rel[0])
+		if vProtected(pats, n) {
+			verif.Assert("protected_entries_are_not_reported", !in)
+		}
+		if vMustProcess(pats, n) {
+			verif.Assert("unmatched_entries_are_reported", in)
+		}
+	}
+}
